@@ -139,17 +139,17 @@ pub fn claim(deps: DepsMut, info: MessageInfo) -> Result<Response, ContractError
                 }
             }
 
-            if epoch.claimed.is_empty() {
-                epoch.claimed = vec![Asset {
+            if let Some(claimed_fee) = epoch
+                .claimed
+                .iter_mut()
+                .find(|claimed_fee| claimed_fee.info == fee.info)
+            {
+                claimed_fee.amount = claimed_fee.amount.checked_add(reward)?;
+            } else {
+                epoch.claimed.push(Asset {
                     info: fee.info.clone(),
                     amount: reward,
-                }];
-            } else {
-                for claimed_fee in epoch.claimed.iter_mut() {
-                    if claimed_fee.info == fee.info {
-                        claimed_fee.amount = claimed_fee.amount.checked_add(reward)?;
-                    }
-                }
+                });
             }
 
             EPOCHS.save(deps.storage, &epoch.id.to_be_bytes(), &epoch)?;
